@@ -132,8 +132,8 @@ func c20Gen(r *gen.Rand) c20Msg {
 func errNoop(*stun.Message) error { return nil }
 
 func c20(c *core.Ctx) {
-	if c.Config != "rel" {
-		fatalHarness("C20 runs in the rel configuration only")
+	if c.Config != "rel" && c.Config != "dbg" {
+		fatalHarness("C20 runs in the rel and dbg configurations only")
 	}
 	runtime.GOMAXPROCS(1)
 	old := debug.SetGCPercent(-1)
